@@ -149,6 +149,51 @@ fn parsers<B: Backend>(out: &mut Vec<Parser>) {
     p!("seal", false, SealedKey<B>);
 }
 
+/// the names an application actually writes: every type alias exported by every backend crate
+/// (`paseto_v4::PieWrappedSecretKey`, ...) must be the parser of exactly the kind its name says
+fn exported_parsers(out: &mut Vec<Parser>) {
+    macro_rules! alias {
+        ($backend:expr, $ver:expr, $class:expr, $sem:expr, $ty:ty) => {
+            out.push(Parser { backend: $backend, ver: $ver, class: $class, semantic: $sem, name: format!("exported {}", stringify!($ty)), parse: Box::new(|s: &str| s.parse::<$ty>().is_ok()), from_raw: None })
+        };
+    }
+    macro_rules! crate_aliases {
+        ($krate:ident, $backend:expr, $ver:expr) => {
+            alias!($backend, $ver, "token.local", false, $krate::EncryptedToken<Raw, Vec<u8>>);
+            alias!($backend, $ver, "token.public", false, $krate::SignedToken<Raw, Vec<u8>>);
+            alias!($backend, $ver, "local", true, $krate::LocalKey);
+            alias!($backend, $ver, "public", true, $krate::PublicKey);
+            alias!($backend, $ver, "secret", true, $krate::SecretKey);
+            alias!($backend, $ver, "local", false, $krate::KeyText<Local>);
+            alias!($backend, $ver, "public", false, $krate::KeyText<Public>);
+            alias!($backend, $ver, "secret", false, $krate::KeyText<Secret>);
+            alias!($backend, $ver, "lid", false, $krate::KeyId<Local>);
+            alias!($backend, $ver, "pid", false, $krate::KeyId<Public>);
+            alias!($backend, $ver, "sid", false, $krate::KeyId<Secret>);
+            alias!($backend, $ver, "seal", false, $krate::SealedKey);
+        };
+    }
+    macro_rules! wrapped_aliases {
+        ($krate:ident, $backend:expr, $ver:expr) => {
+            alias!($backend, $ver, "local-wrap.pie", false, $krate::PieWrappedLocalKey);
+            alias!($backend, $ver, "secret-wrap.pie", false, $krate::PieWrappedSecretKey);
+            alias!($backend, $ver, "local-pw", false, $krate::PasswordWrappedLocalKey);
+            alias!($backend, $ver, "secret-pw", false, $krate::PasswordWrappedSecretKey);
+        };
+    }
+    crate_aliases!(paseto_v1, "v1", 1);
+    crate_aliases!(paseto_v2, "v2", 2);
+    crate_aliases!(paseto_v3, "v3", 3);
+    crate_aliases!(paseto_v4, "v4", 4);
+    wrapped_aliases!(paseto_v2, "v2", 2);
+    wrapped_aliases!(paseto_v4, "v4", 4);
+    #[cfg(feature = "ffi")]
+    {
+        crate_aliases!(paseto_v3_aws_lc, "v3lc", 3);
+        crate_aliases!(paseto_v4_sodium, "v4na", 4);
+    }
+}
+
 /// must parser (pver, pclass) accept a value (vver, vclass)?
 fn expected(v: &Value, p: &Parser) -> bool {
     if v.ver != p.ver {
@@ -268,6 +313,7 @@ pub fn run(opts: &Opts) {
     #[cfg(feature = "ffi")]
     collect!(V3Lc, V4Na);
     vector_values(&mut vals);
+    exported_parsers(&mut pars);
     let pars: Vec<Parser> = pars.into_iter().filter(|p| opts.wants_backend(p.backend)).collect();
 
     let mut idx = 0u64;
